@@ -21,6 +21,17 @@ Definition lit_char (c : Z) : bool :=   (* characters some Python integer litera
   isdig c || (c =? 95) || ((9 <=? c) && (c <=? 13)) || ((28 <=? c) && (c <=? 32)) || (c =? 43) || (c =? 45).
 Definition nonempty {A} (l : list A) : bool := match l with [] => false | _ => true end.
 
+(* white space that Python's int() skips around the literal (ASCII): 9..13 and 32 *)
+Definition int_ws (c : Z) : bool := ((9 <=? c) && (c <=? 13)) || (c =? 32).
+Fixpoint drop_ws (s : list Z) : list Z := match s with c :: r => if int_ws c then drop_ws r else s | [] => [] end.
+Definition trim_ws (s : list Z) : list Z := rev (drop_ws (rev (drop_ws s))).
+(* white space, then '-', then a non-zero plain decimal number: a negative number however leniently int() reads it *)
+Definition negative_literal (body : list Z) : bool :=
+  match trim_ws body with
+  | 45 :: ds => nonempty ds && forallb isdig ds && negb (dec_val ds 0 =? 0)
+  | _ => false
+  end.
+
 Definition comp_val (t : list Z) : option (option Z) :=
   match rev t with
   | [] => Some None                                        (* empty component *)
@@ -36,7 +47,8 @@ Definition comp_val (t : list Z) : option (option Z) :=
       | 45 :: ds =>
           if nonempty ds && forallb isdig ds then (if dec_val ds 0 =? 0 then None else Some None)  (* negative: out of range *)
           else if forallb lit_char ds then None else Some None
-      | _ => if forallb lit_char body then None else Some None   (* junk token *)
+      | _ => if negative_literal body then Some None             (* " -1": negative behind white space: out of range *)
+             else if forallb lit_char body then None else Some None   (* junk token *)
       end
   end.
 
